@@ -534,7 +534,7 @@ func c06Serve(t []string) *served {
 // ---- generation ----
 
 func c06Targets(rng *RNG) (method, target string, hdrs []string, body string) {
-	repos := []string{"foo", "foo/bar", "blobs/uploads", "a/blobs/b", "manifests", "tags/list", "x/referrers/y", "_catalog", "v2", "UPPER", "", "a//b", "-bad", strings.Repeat("r", 300), "é"}
+	repos := []string{"foo", "foo/bar", "blobs/uploads", "a/blobs/b", "foo/blobs/uploads", "foo/blobs/uploads/cache", "manifests", "tags/list", "x/referrers/y", "_catalog", "v2", "UPPER", "", "a//b", "-bad", strings.Repeat("r", 300), "é"}
 	digs := []string{sha256Digest([]byte("0123456789")), sha256Digest([]byte("x")), sha256Digest([]byte("")), "sha256:" + strings.Repeat("0", 64), "sha512:" + strings.Repeat("a", 128), "sha256:abc", "bogus", "", "sha256:" + strings.Repeat("A", 64), "md5:" + strings.Repeat("a", 32)}
 	tags := []string{"latest", "v1.0", "list", "uploads", "", "-bad", strings.Repeat("t", 129), "a:b", "_"}
 	ids := []string{"bXlpZA", "dXBsb2FkLTE", "", "!!!", "_-8", "YQ==", "/w"}
